@@ -480,7 +480,9 @@ impl<'a> G<'a> {
     }
 
     fn act_sty(&mut self) {
-        let n = *self.rng.pick(&["o", "b", "c0", "c1", "c7", "c1000"]);
+        let n = *self.rng.pick(&[
+            "o", "b", "b", "c0", "c1", "c7", "c1000", "c65530", "c65535", "c65536", "c100000", "c4294967301",
+        ]);
         let s = *self.rng.pick(&["s", "u", "U"]);
         let g = *self.rng.pick(&["s", "h"]);
         self.step(format!("sty {} {} {}", n, s, g));
